@@ -778,7 +778,7 @@ func ruleResumeDb(w *core.World, r *core.Report) {
 			if !isRet || len(ret.Results) < 2 {
 				continue
 			}
-			if core.DependsOn(ret.Results[1], isResultOf("pkg/redis/checkpoint.GetCheckpoint", 1)) {
+			if core.DependsOn(core.RetVal(ret, 1), isResultOf("pkg/redis/checkpoint.GetCheckpoint", 1)) {
 				ok = true
 			}
 		}
